@@ -110,6 +110,7 @@ let () =
       let ctx = { opidx = 0; impl } in
       pr "case %s\n" id;
       Ops.case_begin (); Pipe.reset ();
+      Pipe.case_exit := (match Hashtbl.find_opt impl_raw id with Some ls -> List.mem "obs exit 1" ls | None -> false);
       (match Hashtbl.find_opt impl_raw id with Some ls -> Ops.load_oracle ls | None -> ());
       List.iter
         (fun l ->
@@ -135,6 +136,7 @@ let () =
                    Util.spec (try int_of_string op with _ -> 0) "C17_released" false ("still allocated, held by nobody: " ^ String.concat " " rest)
                | _ -> ()) ls
        | None -> ());
+      if !Pipe.dead then pr "obs exit 1\n";
       pr "end\n";
       print_string (Buffer.contents out);
       Buffer.clear out)
